@@ -20,7 +20,8 @@ import (
 //   context.noID, noMeta, noRelationMembership, includeInvalidPolygons   the option fields (c17OptionRoles gives
 //                                       each its documented role)
 // Everything else is resolved by role, never by name or file:
-//   - the option fields are the context fields assigned in functions of type Option;
+//   - the option fields are the fields of the context, or of a struct of the package the context holds (embedded or
+//     named, by value or pointer; promoted selectors denote the same field), assigned in functions of type Option;
 //   - the membership map is the context field of type map[osm.FeatureID][]…; the skippable set is the context
 //     field of type map[osm.WayID]struct{};
 //   - the interest predicate is the package function of type func(osm.Tags, map[string]string) bool;
@@ -30,7 +31,8 @@ import (
 //   - feature emissions are appends to / literals of []*geojson.Feature and FeatureCollection.Append, element
 //     passes are ranges over osm.Relations/osm.Ways/osm.Nodes, found from the exported Convert through helpers.
 // Files: c17.go (registration, G1, G2, G4), c17_cfg.go (CFG facts, finite-domain evaluation, regions, effects),
-// c17_role.go (multipolygon builder by role), c17_g3.go, c17_g5.go, c17_g6.go, c17_benign.go and c17_benign2.go
+// c17_role.go (multipolygon builder by role), c17_g3.go, c17_g4more.go, c17_g5.go, c17_g6.go, c17_g7.go with the symbolic
+// interpreter c17_sym*.go, c17_benign.go, c17_benign2.go and c17_benign3.go
 // (behaviour-preserving variants and defects seeded into refactored shapes).
 
 func init() {
@@ -44,8 +46,9 @@ func init() {
 			"(G4) the node/way/relation cases of the meta type switch are identical up to the element type, the names of case-local variables and the order of independent map fills; " +
 			"(G5) every feature emission reachable from Convert lies in exactly one element pass (range over the input's relations, ways or nodes, in Convert or in a helper), every path through one iteration emits at most one feature (helpers counted with their per-call maximum), in the ways pass every emission is controlled by the test that the way is not in the skippable set, and the relation pass, which fills that set, is complete before the ways pass starts; " +
 			"(G6) a way is put into the skippable set only under the fact that the interest predicate is false for that way's own tags, and the discount set handed to the predicate is nil on every path reaching that guard (literal, local whose every assignment is examined, or helper parameter decided at the call sites); only inside the multipolygon builder may the discount set be non-nil, and only where no member other than an outer way can see it (the CFG is evaluated with <member>.Role != \"outer\": the guard is unreachable, or every non-nil assignment of the local carrying the set cannot execute or is overwritten before the guard, within one loop iteration); the old-style take-over of a relation by its single outer way is left to C16. " +
+			"(G7) the ring of the polygon made for an area way is the way's line closed by repeating its first point: the code between the way converter's entry and every orb.Polygon{ring} outside the multipolygon builder (closing helper included, wherever it lives) is interpreted symbolically for lines of 0..5 points, open and already closed, points being tokens of which only identity is known; every ring reaching such a literal starts with the input points, leaves a closed line unchanged and appends exactly the first point to an open one, and no path indexes the line out of range. " +
 			"All of G3-G6 are decided on guard facts and reachability, so if/switch forms, inverted branches, early returns, merged or split guards, if-init forms, locals naming a condition, extracted or inlined helpers and moved functions do not change the verdict. " +
-			"NOT decided: geometry values (ring winding, joined route geometry), the tag-interest rule itself, which nodes become points, JSON encoding of the result, mutation through reflection/unsafe, functions only reachable through calls VTA cannot resolve, option values that reach a function literal (reported as undecidable).",
+			"NOT decided: geometry values (ring winding, joined route geometry, which ways are areas: C18), the tag-interest rule itself, which nodes become points, JSON encoding of the result, mutation through reflection/unsafe, functions only reachable through calls VTA cannot resolve, option values that reach a function literal (reported as undecidable).",
 		Assumptions: []string{"go/types, go/cfg, go/ssa, VTA call graph (x/tools v0.29.0)", "no unsafe/reflect-based writes in the call tree: input memory is only reachable through the types reachable from osm.OSM",
 			"non-repository callees do not write through their arguments except the enumerated in-place mutators (sort.*, slices.*, Reverse/Sort* methods); any other external callee receiving input memory is reported as undecided unless allow-listed as read-only",
 			"G3 effect analysis: functions of packages osm, time and fmt and conversions/len/cap/make/new/append/panic have no effect visible to the option roles (writes of package osm functions are decided by G1); same-package callees are followed four levels deep"},
@@ -54,7 +57,7 @@ func init() {
 		Technique: "SSA type-based effect analysis with allocation-freshness over the VTA call tree of Convert; go/cfg guard facts, three-valued finite-domain evaluation of branch conditions under option valuations, exclusive/bypassed CFG regions with interprocedural effect summaries; type-directed structural comparison of sibling cases modulo local naming and commuting statements; path counting over go/cfg loop bodies with per-call emission maxima",
 		DesignRef: "DESIGN.md §5 C17",
 		NeedSSA:   true,
-		Benign:    append(append([]core.Mutant{}, c17Benign...), c17Benign2...),
+		Benign:    append(append(append([]core.Mutant{}, c17Benign...), c17Benign2...), c17Benign3...),
 		Rules: []*core.Rule{
 			// Floors count what a behaviour-preserving refactoring cannot remove:
 			// G1/G2: Convert, the four option setters and the exported osm/mputil API the conversion needs (Tags.Map, Tags.Find,
@@ -62,7 +65,7 @@ func init() {
 			//        (38 in the tree today; unexported helpers may be inlined or split freely);
 			// G3: 4 option writes + at least one branch per option (two for noRelationMembership) + one guarded store of
 			//     Feature.ID, meta and relations each + one membership read = 13, floor 10;
-			// G4: the three element cases; G5: three passes + skippable + order; G6: the route builder's store and at least one
+			// G7: the way converter (one interpreted root); G4: the three element cases; G5: three passes + skippable + order; G6: the route builder's store and at least one
 			//     store in the multipolygon builder.
 			{ID: "G1", Floor: 12, Doc: "input immutability: no write into input-typed memory or package state anywhere in the call tree of Convert", Run: c17G1},
 			{ID: "G2", Floor: 12, Doc: "determinism: no order-dependent range over a map in the call tree of Convert", Run: c17G2},
@@ -70,6 +73,7 @@ func init() {
 			{ID: "G4", Floor: 3, Doc: "node/way/relation meta cases are identical up to the element type, local names and the order of independent map fills", Run: c17G4},
 			{ID: "G5", Floor: 5, Doc: "each element pass emits at most one feature per iteration on every path; skippable ways are not emitted; the relation pass precedes the ways pass", Run: c17G5},
 			{ID: "G6", Floor: 2, Doc: "a way becomes skippable only when it has no interesting tag of its own; tags may be discounted only for outer members inside the multipolygon builder", Run: c17G6},
+			{ID: "G7", Floor: 1, Doc: "the ring of an area way's polygon is the way's line closed by repeating its first point (symbolic evaluation of the closing code over lines of 0..5 points)", Run: c17G7},
 		},
 		Mutants: append([]core.Mutant{
 			{Name: "g6-route-way-ignores-relation-tags", File: "osmgeojson/convert.go", Find: "if !hasInterestingTags(way.Tags, nil) {\n\t\t\tctx.skippable[way.ID] = struct{}{}", Replace: "if !hasInterestingTags(way.Tags, relation.Tags.Map()) {\n\t\t\tctx.skippable[way.ID] = struct{}{}", ExpectRule: "G6", ExpectConstruct: "buildRouteLineString"},
@@ -110,7 +114,7 @@ func init() {
 			{Name: "g5-skippable-not-skipped", File: "osmgeojson/convert.go", Find: "\t\tif _, skip := ctx.skippable[way.ID]; skip {\n\t\t\tcontinue\n\t\t}\n", Replace: "", ExpectRule: "G5", ExpectConstruct: "skippable@Convert ways"},
 			{Name: "g5-skippable-inverted", File: "osmgeojson/convert.go", Find: "if _, skip := ctx.skippable[way.ID]; skip {", Replace: "if _, skip := ctx.skippable[way.ID]; !skip {", ExpectRule: "G5", ExpectConstruct: "skippable@Convert ways"},
 			{Name: "g5-node-loop-appends-in-inner-loop", File: "osmgeojson/convert.go", Find: "\t\tfeature := ctx.nodeToFeature(node)\n\t\tif feature != nil {\n\t\t\tfeatures = append(features, feature)\n\t\t}\n", Replace: "\t\tfeature := ctx.nodeToFeature(node)\n\t\tfor range ctx.relationMember[node.FeatureID()] {\n\t\t\tfeatures = append(features, feature)\n\t\t}\n", ExpectRule: "G5", ExpectConstruct: "loop@Convert nodes"},
-		}, append(append([]core.Mutant{}, c17RefactoredMutants...), c17Mutants2...)...),
+		}, append(append(append([]core.Mutant{}, c17RefactoredMutants...), c17Mutants2...), c17Mutants3...)...),
 	})
 }
 
@@ -1185,6 +1189,9 @@ type c17Opt struct {
 	fields   []*types.Var // option fields
 	member   *types.Var   // relation membership map field
 	skip     *types.Var   // skippable set field
+	// the fields of the context and of the structs of the package it holds by value or pointer (embedded
+	// `config`, a named `cfg config` field, …): field -> the field of its parent that holds it (nil at top level)
+	all map[*types.Var]*types.Var
 }
 
 func c17LoadOptions(r *core.R) *c17Opt {
@@ -1215,8 +1222,29 @@ func c17LoadOptions(r *core.R) *c17Opt {
 		r.Anchor("conversion context struct")
 		return nil
 	}
-	for i := 0; i < st.NumFields(); i++ {
-		f := st.Field(i)
+	o.all = map[*types.Var]*types.Var{}
+	var collect func(st *types.Struct, holder *types.Var, depth int)
+	collect = func(st *types.Struct, holder *types.Var, depth int) {
+		for i := 0; i < st.NumFields(); i++ {
+			f := st.Field(i)
+			if _, dup := o.all[f]; dup {
+				continue
+			}
+			o.all[f] = holder
+			if nt, ok := c17Deref(f.Type()).(*types.Named); ok && nt.Obj().Pkg() == pk.Types && depth < 3 {
+				if inner, ok := nt.Underlying().(*types.Struct); ok {
+					collect(inner, f, depth+1)
+				}
+			}
+		}
+	}
+	collect(st, nil, 0)
+	var ordered []*types.Var
+	for f := range o.all {
+		ordered = append(ordered, f)
+	}
+	sort.Slice(ordered, func(i, j int) bool { return ordered[i].Pos() < ordered[j].Pos() })
+	for _, f := range ordered {
 		if mt, ok := f.Type().Underlying().(*types.Map); ok {
 			switch {
 			case namedPath(mt.Key()) == core.ModulePath+".FeatureID":
@@ -1254,10 +1282,30 @@ func c17LoadOptions(r *core.R) *c17Opt {
 	return o
 }
 
+// isCtxField: f is a field of the context or of a struct the context holds (promoted or explicitly selected).
 func (o *c17Opt) isCtxField(f *types.Var) bool {
-	st := o.ctxNamed.Underlying().(*types.Struct)
+	_, ok := o.all[f]
+	return ok
+}
+
+// holds reports whether holder (a field of the context) is, directly or transitively, the struct f lives in.
+func (o *c17Opt) holds(holder, f *types.Var) bool {
+	for h := o.all[f]; h != nil; h = o.all[h] {
+		if h == holder {
+			return true
+		}
+	}
+	return false
+}
+
+// structHas reports whether the struct type t (of the package) has field f, directly or through held structs.
+func (o *c17Opt) structHas(t types.Type, f *types.Var) bool {
+	st, ok := c17Deref(t).Underlying().(*types.Struct)
+	if !ok {
+		return false
+	}
 	for i := 0; i < st.NumFields(); i++ {
-		if st.Field(i) == f {
+		if st.Field(i) == f || o.holds(st.Field(i), f) {
 			return true
 		}
 	}
@@ -1643,6 +1691,9 @@ func (c *c17Cmp) same(a, b ast.Node) bool {
 			return false
 		}
 		return c.same(x.Cond, y.Cond) && c.same(x.Body, y.Body)
+	}
+	if res, handled := c.sameMore(a, b); handled {
+		return res
 	}
 	return false // statement kinds outside the enumerated ones never compare equal
 }
